@@ -690,7 +690,7 @@ def flush(ctx, pending, recs=None):
 
 # ---- attribution: the chain, or the session of the process that executed it ---------------------
 SESSION_CLAUSE = "result_depends_on_earlier_chains"
-MAX_GROUPS, REPS, MAX_TARGETS = 40, 3, 6
+MAX_GROUPS, REPS, MAX_TARGETS = 300, 3, 6
 
 
 def session_signature(entry, clause):
